@@ -10,11 +10,20 @@
      Remove  succeeds iff valid, present, not the root and (not a directory or an empty one); then exactly
              that record is gone; every failure changes nothing;
      Chmod / Chtimes succeed iff valid and present; then only that record's permission bits / mod time change;
+     OpenFile for every flag combination: O_CREATE|O_EXCL on an existing name fails with ErrExist; write, create or
+             truncate flags on a directory fail with ErrIsDir; otherwise an existing entry is opened (O_TRUNC
+             rewrites only that record); a missing name is created iff O_CREATE is set and the parent is a
+             directory -- one regular record with the requested permission bits -- and fails otherwise;
+     Rename of a non-directory: succeeds iff the new name's parent is a directory and the new name is absent or a
+             non-directory; then exactly: the record now lives under the new name and the old name is gone;
+     ReadFile of a regular file returns exactly the bytes of its record; WriteFullFile to a new name followed by
+             ReadFile returns the bytes written;
    plus the invariant that makes the comparison with a real tree meaningful (C03) and the handle
    theorems of C02.  NOT proved (compared with os and the model on every run instead): the specifications
-   of OpenFile's flag combinations, WriteFullFile, MkdirAll, RemoveAll and Rename.
+   of WriteFullFile over an existing file, RemoveAll and Rename of directories, and MkdirAll's exact success condition (for these
+   C03 proves what they preserve, and that a successful Rename leaves nothing at the old name).
    Refuted (known finding): ReadFile of a directory succeeds with no bytes where os fails with EISDIR. *)
-From HP Require Import Base.Prelude Base.Path KV.Types KV.FS KV.Handle KV.Run KV.TreeProofs KV.SpecProofs.
+From HP Require Import Base.Prelude Base.Path KV.Types KV.FS KV.Handle KV.Run KV.TreeProofs KV.SpecProofs KV.OpenProofs.
 Open Scope N_scope.
 
 Theorem C01_stat_spec : forall st p, good st ->
@@ -74,6 +83,73 @@ Theorem C01_chtimes_spec : forall st p t, good st ->
      snd r = None /\ st_store (fst r) = insert s p (mkRec (r_mode rc) (Explicit t) (r_cell rc))).
 Proof. exact kv_chtimes_spec. Qed.
 Print Assumptions C01_chtimes_spec.
+
+Theorem C01_openfile_spec : forall st p flag perm, good st ->
+  let s := st_store st in
+  let r := kv_openfile st p flag perm in
+  let create := has_flag flag F_CREATE in
+  (valid_path p = false -> snd r = inr (PathErr p EINVAL) /\ st_store (fst r) = s) /\
+  (valid_path p = true -> forall rc, lookup s p = Some rc ->
+     if create && has_flag flag F_EXCL then snd r = inr (PathErr p EEXIST) /\ st_store (fst r) = s
+     else if is_dir (r_mode rc) && has_flag flag dir_open_mask then snd r = inr (PathErr p EISDIR) /\ st_store (fst r) = s
+     else (exists f, snd r = inl f /\ keeps (mk_file p rc) f) /\
+          (st_store (fst r) = s \/
+           (has_flag flag F_TRUNC = true /\ st_store (fst r) = insert s p (mkRec (r_mode rc) Clock (r_cell rc))))) /\
+  (valid_path p = true -> lookup s p = None ->
+     if create then
+       match lookup s (path_dir p) with
+       | Some par =>
+         if is_dir (r_mode par)
+         then (exists f, snd r = inl f /\ h_path f = p /\ f_mode f = N.land perm ModePerm) /\
+              exists c, store_upd s p (mkRec (N.land perm ModePerm) Clock c) (st_store (fst r))
+         else snd r = inr (PathErr p ENOTDIR) /\ st_store (fst r) = s
+       | None => exists c, snd r = inr (PathErr p c) /\ enoent_or_enotdir c /\ st_store (fst r) = s
+       end
+     else exists c, snd r = inr (PathErr p c) /\ enoent_or_enotdir c /\ st_store (fst r) = s).
+Proof. exact kv_openfile_spec. Qed.
+Print Assumptions C01_openfile_spec.
+
+Theorem C01_rename_of_a_non_directory_spec : forall fuel st o n rc, good st ->
+  valid_path o = true -> valid_path n = true ->
+  lookup (st_store st) o = Some rc -> is_dir (r_mode rc) = false ->
+  let s := st_store st in
+  let r := kv_rename (Datatypes.S fuel) st o n in
+  (o = n -> snd r = None /\ st_store (fst r) = s) /\
+  (o <> n -> ~ has_dir s (path_dir n) -> exists c, snd r = Some (LinkErr o n c) /\ st_store (fst r) = s) /\
+  (o <> n -> has_dir s (path_dir n) -> forall rn, lookup s n = Some rn -> is_dir (r_mode rn) = true ->
+     snd r = Some (LinkErr o n EEXIST) /\ st_store (fst r) = s) /\
+  (o <> n -> has_dir s (path_dir n) ->
+     (lookup s n = None \/ exists rn, lookup s n = Some rn /\ is_dir (r_mode rn) = false) ->
+     snd r = None /\ st_store (fst r) = remove_key (insert s n (mkRec (r_mode rc) (r_mtime rc) (r_cell rc))) o).
+Proof. exact kv_rename_file_spec. Qed.
+Print Assumptions C01_rename_of_a_non_directory_spec.
+
+Theorem C01_readfile_returns_the_files_bytes : forall st p rc, good st -> valid_path p = true ->
+  lookup (st_store st) p = Some rc -> is_regular (r_mode rc) = true ->
+  snd (kv_readfile st p) = inl (cell st (r_cell rc)) /\ st_store (fst (kv_readfile st p)) = st_store st.
+Proof. exact kv_readfile_spec. Qed.
+Print Assumptions C01_readfile_returns_the_files_bytes.
+
+Theorem C01_write_new_file_then_read_returns_the_data : forall st p d perm, good st -> valid_path p = true ->
+  lookup (st_store st) p = None -> has_dir (st_store st) (path_dir p) -> d <> [] ->
+  snd (kv_writefile st p d perm) = None /\ snd (kv_readfile (fst (kv_writefile st p d perm)) p) = inl d.
+Proof. exact write_new_then_read. Qed.
+Print Assumptions C01_write_new_file_then_read_returns_the_data.
+
+(* MkdirAll: success means the directory exists afterwards and no directory that existed was lost; a failure
+   changes nothing *)
+Theorem C01_mkdirall_spec : forall st p perm, good st -> valid_path p = true ->
+  let r := kv_mkdirall st p perm in
+  (snd r = None /\ has_dir (st_store (fst r)) p /\ forall q, has_dir (st_store st) q -> has_dir (st_store (fst r)) q)
+  \/ (snd r <> None /\ st_store (fst r) = st_store st).
+Proof. exact kv_mkdirall_spec. Qed.
+Print Assumptions C01_mkdirall_spec.
+
+(* RemoveAll: when it reports success, the name is gone (and by C03 nothing is left orphaned below it) *)
+Theorem C01_removeall_success_means_gone : forall fuel st p, good st ->
+  snd (remove_all fuel st p) = None -> lookup (st_store (fst (remove_all fuel st p))) p = None.
+Proof. exact remove_all_success_means_gone. Qed.
+Print Assumptions C01_removeall_success_means_gone.
 
 (* the states the specifications speak about are all the reachable ones *)
 Theorem C01_reachable_states_are_good : forall ops, Forall ns_op ops -> good (exec ops).
